@@ -1,7 +1,7 @@
 (* C02 — mass-balance and flow checks report exactly the violations.  Statements only. *)
 From Coq Require Import List Arith Bool QArith Qcanon.
 Import ListNotations.
-From Flodym Require Import Base.ND Np.Einsum Model.Dims Model.Array Model.Instances Model.System Proofs.C02Proofs.
+From Flodym Require Import Base.ND Np.Einsum Model.Dims Model.Array Model.Instances Model.System Base.Env Proofs.ArrayLemmas Proofs.C02Proofs Proofs.FoldAdd Proofs.Lift Proofs.C02Closed.
 Local Open Scope nat_scope.
 
 (* For EVERY system graph (any processes, flows, stocks with or without process, processes without
@@ -40,3 +40,60 @@ Example ex_C02 :
   check_mass_balance_v sys_current (q 100%Z 1%positive) (mk_system 2 [mk_flow 0 0 1 (a 2%Z); mk_flow 1 1 0 (a 2%Z)] []) (Some (q 1%Z 1000%positive)) = VSuccess
   /\ check_mass_balance_v sys_current (q 100%Z 1%positive) (mk_system 2 [mk_flow 0 0 1 (a 4%Z); mk_flow 1 1 0 (a 2%Z)] []) (Some (q 1%Z 1000%positive)) = VFailed [0; 1].
 Proof. vm_compute. split; reflexivity. Qed.
+
+(* What the balance IS, for every NaN-free system: its dimensions are those common to all of the
+   process's contributions (in the first contribution's order), and its entry under the labels [e] is the sum
+   over the contributions — minus each flow leaving, plus each flow entering, minus the net addition of each
+   attached stock, plus the net addition of every stock booked on the system environment — of the contribution
+   summed over all labels of its other dimensions.  ([qcontributions] lists them; [lift_sys] is the system
+   with those values; G gives the length of every dimension letter.) *)
+Theorem C02_balance_is_sum_of_contribution_marginals :
+  forall (s : qsystem) (p : nat) (G : env) (c1 : qarr) (cs : list qarr) (b : fO),
+  qcontributions s p = Ok (c1 :: cs) ->
+  Forall (wf Qc) (c1 :: cs) -> Forall (agree Qc G) (c1 :: cs) ->
+  balance (lift_sys s) p = Ok (Some b) ->
+  exists r : qarr,
+    b = qlift r
+    /\ adims r = filter (fun d => forallb (fun c => memb (dletter d) (aletters Qc c)) cs) (adims c1)
+    /\ forall e, in_range G e (aletters Qc r) ->
+         den Qc 0%Qc r e = msum Qc 0%Qc Qcplus (c1 :: cs) (aletters Qc r) e.
+Proof. exact balance_closed_form. Qed.
+Print Assumptions C02_balance_is_sum_of_contribution_marginals.
+
+Theorem C02_process_without_contribution_balances_to_zero :
+  forall (s : qsystem) (p : nat),
+  qcontributions s p = Ok [] -> balance (lift_sys s) p = Ok (Some (mk_farr [] [o0])).
+Proof. exact balance_empty. Qed.
+Print Assumptions C02_process_without_contribution_balances_to_zero.
+
+(* the closed form for sums of arrays of differing dimensionality, for every commutative ring *)
+Theorem C02_sum_of_arrays_reduces_to_common_dimensions :
+  forall (R : Type) (rO rI : R) (radd rmul rsub : R -> R -> R) (ropp : R -> R),
+  Ring_theory.ring_theory rO rI radd rmul rsub ropp eq ->
+  forall (G : env) (p1 : farr R) (ps : list (farr R)) (r : farr R),
+  Forall (wf R) (p1 :: ps) -> Forall (agree R G) (p1 :: ps) ->
+  g_sum R rO rI radd rmul (p1 :: ps) = Ok (Some r) ->
+  adims r = filter (fun d => forallb (fun p => memb (dletter d) (aletters R p)) ps) (adims p1)
+  /\ forall e, in_range G e (aletters R r) -> den R rO r e = msum R rO radd (p1 :: ps) (aletters R r) e.
+Proof. exact g_sum_spec. Qed.
+Print Assumptions C02_sum_of_arrays_reduces_to_common_dimensions.
+
+(* non-vacuity of the closed form: process 1 receives a flow over (t, r), sends a flow over (t) and holds a
+   stock over (t); the premises hold and the balance is computed *)
+Example ex_C02_closed :
+  let dt := mk_dim 116 0 [0; 1] in let dr := mk_dim 114 1 [0; 1; 2] in
+  let G := [(116, 2); (114, 3)] in
+  let f1 := mk_farr [dt; dr] (map (fun z => q z 1%positive) [1; 2; 3; 4; 5; 6]%Z) in
+  let f2 := mk_farr [dt] (map (fun z => q z 1%positive) [5; 13]%Z) in
+  let si := mk_farr [dt] (map (fun z => q z 1%positive) [2; 3]%Z) in
+  let so := mk_farr [dt] (map (fun z => q z 1%positive) [1; 1]%Z) in
+  let s := mk_qsystem 2 [mk_qflow 0 0 1 f1; mk_qflow 1 1 0 f2] [mk_qstock (Some 1) si so si] in
+  exists c1 cs b,
+    qcontributions s 1 = Ok (c1 :: cs) /\ length cs = 2
+    /\ Forall (agree Qc G) (c1 :: cs)
+    /\ balance (lift_sys s) 1 = Ok (Some b) /\ avals b = [Some (q 0 1%positive); Some (q 0 1%positive)].
+Proof.
+  cbv zeta. do 3 eexists. split; [vm_compute; reflexivity|]. split; [reflexivity|].
+  split; [|split; vm_compute; reflexivity].
+  repeat constructor; intros d Hd; simpl in Hd; repeat (destruct Hd as [<-|Hd]; [reflexivity|]); contradiction.
+Qed.
